@@ -158,7 +158,12 @@ def _make_tail():
     return ns["_tail"]
 
 
-_TAIL = _make_tail()
+try:
+    _TAIL = _make_tail()
+    _TAIL_ERR = ""
+except T.Untranslatable as _e:   # the current source no longer has the "assignments, then the first if" shape: Engine T reports
+    _TAIL = None                 # `untranslatable` (inconclusive); the Engine-S obligations below still run the whole function
+    _TAIL_ERR = str(_e)
 _DNS_PATTERN = regex_literal(DEPL, "_DNS_1035_RE")
 
 
@@ -199,6 +204,9 @@ def ob_sanitiser(d: str) -> bool:
     pre: len(d) <= LMAX
     post: _
     """
+    if _TAIL is None:   # sanitiser statements not isolable in the current source: judge the whole lifted function on d instead
+        ns = _lifted(["c0ffe", HEX1], ["e", "f"], [True, True])
+        return _label_ok(drive(ns["find_deployment_id"](d, False)))
     s = _TAIL(d)
     return _facts(s) and _proj(s) == _proj(d)
 
@@ -228,10 +236,21 @@ def _ref_sanitised(name: str) -> str:
     return out.strip("-")
 
 
+def _label_ok(rid: str) -> bool:
+    """DNS-1035 label written from RFC 1035 2.3.1, character by character — independent of the repository's regex (whose `$`
+    under re.match also accepts one trailing line feed)"""
+    if not (1 <= len(rid) <= 63):
+        return False
+    for c in rid:
+        if not (c == "-" or ("a" <= c <= "z") or ("0" <= c <= "9")):
+            return False
+    return ("a" <= rid[0] <= "z") and rid[-1] != "-"
+
+
 def _check_id(name: str, force: bool, avail0: bool, hex0: str, alpha0: str, rid: str) -> bool:
     from llama_agents.core.schema.deployments import validate_dns_1035_label
 
-    if len(rid) > 63:
+    if len(rid) > 63 or not _label_ok(rid):
         return False
     try:
         validate_dns_1035_label(rid)
@@ -299,6 +318,34 @@ def ob_long_names(p: int, h: int, r: int, lead: int, force: bool, avail0: bool, 
     force, avail0, hdigit = cbool(force), cbool(avail0), cbool(hdigit)
     with untraced():
         name = ("20" if lead else "") + "a" * p + " _"[:h] + "b" * r
+        hex0 = "7c0fe" if hdigit else "c0ffe"
+        ns = _lifted([hex0, HEX1], ["e", "f"], [avail0, True])
+        rid = drive(ns["find_deployment_id"](name, force))
+        return _check_id(name, force, avail0, hex0, "e", rid)
+
+
+WS_POOL = ["\n", "\r\n", "\t", " ", "\x0b", "\x0c", "\x1c", "\x85", "\u2028", "\n\n", "\r", ""]
+STEMS = ["my-service", "a", "ab", "abc", "7up", "rag--app", "A-b"]
+
+
+@obligation(quick=240, thorough=600,
+            partitions_quick=[f"st == {k}" for k in range(len(STEMS))],
+            what="whole lifted find_deployment_id on names that are an (almost) valid label with line ends / control / Unicode "
+                 "white space in front, behind or inside: the returned id is a DNS-1035 label by the character-level definition "
+                 "(not by the repository's own regex, whose `$` tolerates a trailing line feed), derived from the name",
+            bounds={"stem": "7 pooled stems (valid, short, digit-first, double hyphen, upper case)", "white space": "behind the stem: 12 pooled runs "
+                    "(LF, CRLF, TAB, space, VT, FF, FS, NEL, LS, LF LF, CR, none); in front: LS, LF LF, CR, none; after the first character: LF LF, CR, none",
+                    "first hex draw": "digit or letter", "availability": "first check free/taken", "force_suffix": "both"})
+def ob_line_ends(st: int, w0: int, w1: int, w2: int, force: bool, avail0: bool, hdigit: bool) -> bool:
+    """
+    pre: 0 <= st < 7 and 0 <= w0 < 4 and 0 <= w1 < 12 and 0 <= w2 < 3
+    post: _
+    """
+    st, w0, w1, w2 = cint(st, 0, 6), cint(w0, 0, 3) + 8, cint(w1, 0, 11), cint(w2, 0, 2) + 9
+    force, avail0, hdigit = cbool(force), cbool(avail0), cbool(hdigit)
+    with untraced():
+        stem = STEMS[st]
+        name = WS_POOL[w0] + stem[:1] + WS_POOL[w2] + stem[1:] + WS_POOL[w1]
         hex0 = "7c0fe" if hdigit else "c0ffe"
         ns = _lifted([hex0, HEX1], ["e", "f"], [avail0, True])
         rid = drive(ns["find_deployment_id"](name, force))
